@@ -245,6 +245,29 @@ func (c *evalCtx) eval(x Expr) EV {
 				pats = triggerTerms(body, bv)
 			}
 		}
+		if n.Forall && len(pats) == 2 && pats[0].Op == "select" && pats[1].Op == "select" {
+			// a fact relating a byte stream to a slice or string, "stream[a+k] == other[b+k]": orient it so that chains
+			// of such facts instantiate without loops - facts about WRITTEN bytes are keyed on the stream position
+			// (trigger stream[j]), facts about READ bytes on the other side (trigger other[j]); both quantify over the
+			// absolute index of the keyed read
+			var key *smt.Term
+			r0, r1 := e.selectRole[pats[0].ID()], e.selectRole[pats[1].ID()]
+			switch {
+			case r0 == "w" && r1 == "":
+				key = pats[0]
+			case r1 == "w" && r0 == "":
+				key = pats[1]
+			case r0 == "r" && r1 == "":
+				key = pats[1]
+			case r1 == "r" && r0 == "":
+				key = pats[0]
+			}
+			if key != nil {
+				if v := c.keyedVariant(body, bv, n.Var, key); v != nil {
+					return boolEV(v)
+				}
+			}
+		}
 		if len(pats) == 0 {
 			// every candidate trigger contains an ite or a connective (array or offset terms merged over paths): name
 			// those subterms by fresh constants (definitional equalities) and quantify over the absolute index of each
@@ -890,11 +913,15 @@ func (c *evalCtx) callExpr(n *ECall) EV {
 		case "wbyte": // wbyte(w, off): byte written at absolute offset off
 			a := c.eval(n.Args[0])
 			off := cx.Extend(c.toMath(c.eval(n.Args[1])), 64, true)
-			return EV{V: Val{Typ: types.Typ[types.Uint8], Terms: []*smt.Term{cx.Select(e.ghostGet(c.st, gWData, streamKey(a.V)), off)}}}
+			wt := cx.Select(e.ghostGet(c.st, gWData, streamKey(a.V)), off)
+			e.markSelectRole(wt, "w")
+			return EV{V: Val{Typ: types.Typ[types.Uint8], Terms: []*smt.Term{wt}}}
 		case "rbyte": // rbyte(r, off): input byte at absolute offset off
 			a := c.eval(n.Args[0])
 			off := cx.Extend(c.toMath(c.eval(n.Args[1])), 64, true)
-			return EV{V: Val{Typ: types.Typ[types.Uint8], Terms: []*smt.Term{cx.Select(e.ghostGet(c.st, pData, streamKey(a.V)), off)}}}
+			rt := cx.Select(e.ghostGet(c.st, pData, streamKey(a.V)), off)
+			e.markSelectRole(rt, "r")
+			return EV{V: Val{Typ: types.Typ[types.Uint8], Terms: []*smt.Term{rt}}}
 		case "has":
 			m := c.eval(n.Args[0])
 			k := c.eval(n.Args[1])
@@ -1291,6 +1318,31 @@ func triggerTerms(body, bv *smt.Term) []*smt.Term {
 		out = out[:3]
 	}
 	return out
+}
+
+// keyedVariant rewrites  forall k. body  into  forall j. body[k := j - base]  with the single trigger key[.. j ..],
+// where key = select(arr, base + k) (or select(arr, k)).
+func (c *evalCtx) keyedVariant(body, bv *smt.Term, vname string, key *smt.Term) *smt.Term {
+	cx := c.e.C
+	arr, idx := key.Args[0], key.Args[1]
+	if termHas(arr, bv) {
+		return nil
+	}
+	var base *smt.Term
+	switch {
+	case idx == bv:
+		return cx.ForallPat([]*smt.Term{bv}, body, key)
+	case idx.Op == "bvadd" && len(idx.Args) == 2 && idx.Args[1] == bv && !termHas(idx.Args[0], bv):
+		base = idx.Args[0]
+	case idx.Op == "bvadd" && len(idx.Args) == 2 && idx.Args[0] == bv && !termHas(idx.Args[1], bv):
+		base = idx.Args[1]
+	default:
+		return nil
+	}
+	j := cx.BoundVar(vname+".abs", bv.Sort)
+	b2 := cx.Subst(body, key, cx.Select(arr, j))
+	b2 = cx.Subst(b2, bv, cx.Op("bvsub", bv.Sort, j, base))
+	return cx.ForallPat([]*smt.Term{j}, b2, cx.Select(arr, j))
 }
 
 // namedTriggerVariants: see the call site.
